@@ -496,6 +496,9 @@ class Interp(ExprMixin):
         for s in stmts:
             nxt = []
             for st in states:
+                if st.jump is not None:
+                    nxt.append(st)       # left the loop body through continue / break
+                    continue
                 c, d = self.exec_stmt(s, st)
                 nxt.extend(c)
                 done.extend(d)
@@ -751,16 +754,22 @@ class Interp(ExprMixin):
         if isinstance(it, Tup) and not s.orelse and ((len(it) <= 6 and self.unroll) or (
                 len(it) <= 4 and all(isinstance(i, Const) or (isinstance(i, Poly) and i.const_value() is not None) for i in it.items))):
             # a list whose items are all known: iterate concretely
-            states, done = [st], []
+            states, done, left = [st], [], []
             for item in it.items:
                 nxt = []
                 for cur in states:
                     self.assign(s.target, item, cur, s)
                     c, d = self.exec_block(s.body, [cur])
-                    nxt += c
+                    for b in c:
+                        if b.jump == 'break':
+                            b.jump = None
+                            left.append(b)
+                        else:
+                            b.jump = None
+                            nxt.append(b)
                     done += d
                 states = nxt
-            return states, done
+            return states + left, done
         return self._loop(s, st, it)
 
     def s_While(self, s, st):
@@ -782,6 +791,8 @@ class Interp(ExprMixin):
             body_states, done = self.exec_block(s.body, [st.fork()])
         finally:
             self.loop_depth -= 1
+        for b in body_states:
+            b.jump = None
         info = {'node': s, 'func': self.cur.key, 'iter': it, 'pre': pre,
                 'phi': {n: Poly.atom(('loop', f'{n}@{self.cur.name}:{line}', 'phi')) for n in names},
                 'ends': [{n: b.env.get(n) for n in names} for b in body_states],
@@ -808,9 +819,12 @@ class Interp(ExprMixin):
         return [out], done
 
     def s_Break(self, s, st):
+        st.jump = 'break'
         return [st], []
 
-    s_Continue = s_Break
+    def s_Continue(self, s, st):
+        st.jump = 'continue'
+        return [st], []
 
     def s_With(self, s, st):
         for item in s.items:
